@@ -11,6 +11,7 @@ import (
 	"fmt"
 	"os"
 	"sort"
+	"strings"
 	"time"
 )
 
@@ -44,6 +45,7 @@ type Summary struct {
 	Samples          []any            `json:"samples,omitempty"`
 	WallS            float64          `json:"wall_s"`
 	Extra            map[string]any   `json:"extra,omitempty"`
+	FuncRuns         map[string]int   `json:"func_runs,omitempty"` // library function -> simulated runs that entered it
 }
 
 type FailLine struct {
@@ -128,6 +130,16 @@ func main() {
 	switch *engine {
 	case "corpus":
 		emit(strategyTable())
+		sig := map[string][]string{}
+		if extra := os.Getenv("VSIM_TRY_PATTERNS"); extra != "" {
+			// exploration aid: show the engine configuration of candidate corpus patterns
+			corpus = strings.Split(extra, "\n")
+		}
+		for _, p := range corpus {
+			k := engineSignature(p)
+			sig[k] = append(sig[k], p)
+		}
+		emit(sig)
 	case "conc":
 		if *replay != "" {
 			exit(replayConc(*replay, st, emit))
